@@ -72,9 +72,15 @@ def prop_C18(run):
 
 
 def prop_C11(run):
-    import rules_tab
+    import rules_tab, rules_unit, rules_det
     rules_tab.tab_fmt(run)
     rules_tab.fmt_profile(run)
+    # bit positions, output byte counts and addresses in address units never meet in one value
+    nc, ns = rules_unit.unit(run, scope_files=list(rules_unit.LAYOUT_FILES), layout=True)
+    run.floor("UNIT5", "layout-unit seeds in the formatters", run.counters.get("unit_layout_seeds", 0), 20)
+    rules_det.lossy_apis(run)
+    rules_det.ceil_divisions(run)
+    rules_det.intelhex_address_width(run)
     # the validators the dispatch relies on must be the ones the driver really applies
     pof = run.anchor("TAB-fmt", "driver::parse_output_format")
     if pof:
@@ -108,10 +114,14 @@ def prop_C03(run):
     n5 = rules_err.err5(run, reach)
     run.floor("ERR5", "fallible call sites", n5, 300)
     rules_err.idx0(run, reach)
+    import rules_asm, rules_mpt
+    rules_asm.args_rules(run)
+    rules_mpt.write_rules(run)
     np_ = rules_err.pair(run, reach)
     run.floor("PAIR", "functions pushing parents", np_, 12)
     run.rules_run += ["ERR1 Err => message pushed (interprocedural path-state search)", "ERR3 Unresolved/None in a last pass => message pushed",
-                      "ERR2-top output stored only behind a stop_at_errors barrier, nothing fails after", "ERR4 driver writes only behind the output test; exit status follows the verdict", "ERR5 no Result<_,()> dropped", "IDX0 callers of functions that index a parameter with a constant establish non-emptiness", "PAIR push_parent/pop_parent balance"]
+                      "ERR2-top output stored only behind a stop_at_errors barrier, nothing fails after", "ERR4 driver writes only behind the output test; exit status follows the verdict", "ERR5 no Result<_,()> dropped", "IDX0 callers of functions that index a parameter with a constant establish non-emptiness", "ARGS function arguments indexed only after the count check",
+                      "WRITE every Ok of the file server's write passed the successful file system write", "PAIR push_parent/pop_parent balance"]
 
 
 def prop_C02(run):
@@ -143,6 +153,7 @@ def prop_C08(run):
     rules_idx.gates(run)
     rules_fix.fix3(run)
     rules_idx.tab_idx(run)
+    rules_idx.candidates_all_matched(run)
     rules_idx.static_known(run)
     rules_idx.sk_provider(run)
     run.rules_run += ["GATE who-touches audit of the two optimisation switches", "FIX3", "TAB-idx writer/reader/matcher agreement of the rule-prefix index", "SK conservativeness of is_value_statically_known per Expr variant"]
@@ -153,6 +164,7 @@ def prop_C07(run):
     rules_idx.tab_idx(run)
     rules_idx.match_shape(run)
     rules_idx.match_identity(run)
+    rules_idx.candidates_all_matched(run)
     run.rules_run += ["TAB-idx (case normalisation, token classes, whitespace skipping)", "MATCH shape of match_with_rule / match_instr selection"]
 
 
@@ -164,6 +176,8 @@ def prop_C13(run):
     rules_unit.unit3(run)
     rules_unit.span_shape(run)
     rules_unit.src_bind(run)
+    import rules_sym
+    rules_sym.declare_rules(run)
     reach = reach_roots(run)
     rules_err.pair(run, reach)
     run.rules_run += ["UNIT byte offsets and character indices never meet in one value (union-find over usize values, interprocedural)",
@@ -251,7 +265,7 @@ def prop_C12(run):
     import rules_mpt, rules_unit
     rules_mpt.bitvec_rules(run)
     rules_mpt.build_output_rules(run)
-    rules_unit.unit(run)
+    rules_unit.unit(run, layout=True)
     rules_unit.src_bind(run)
     n = lim2_obligations(run, only=lambda key, f: "symbol_format" in key or "format_addrspan" in key)
     rules_mpt.symbol_listing(run)
@@ -336,6 +350,7 @@ def prop_C17(run):
     rules_asm.asm_block_rules(run)
     rules_asm.substitution_rules(run)
     rules_asm.fn_rules(run)
+    rules_asm.args_rules(run)
     rules_idx.static_known(run)
     # recursion through asm blocks, user functions and the expression evaluator/parser (asm blocks nest through expressions)
     rules_lim.lim1(FilteredRun(run, lambda key, d: bool(__import__("re").search(r"eval_asm|eval_fn|expr::eval|Expr>::eval|reset-on-cycle\|expr::parser::parse|expr::parser::ExpressionParser", key + " " + d))))
